@@ -232,6 +232,9 @@ func c06Coverage(rec *kit.Rec, g *dGroup, s string) {
 	for _, w := range f.fields {
 		rec.Seen("fields_and_aliases", w)
 	}
+	for _, w := range f.mods {
+		rec.Seen("modifiers", w)
+	}
 	mark := func(b bool, n string) {
 		if b {
 			rec.Count("with_"+n, 1)
@@ -386,9 +389,15 @@ func shrinkCandidates(s string) []string {
 				out = append(out, s[:va]+q+n+q+s[vb:])
 			}
 		}
-		for _, simple := range []string{"/", "a", "b", "c", "x", "1", "_", "A", "aa", "ab"} {
-			if len(simple) < len(inner) || (len(simple) == len(inner) && simple < inner && len(us) > 1) {
-				out = append(out, s[:va]+q+simple+q+s[vb:])
+		rank := len(simplePatterns)
+		for i, sp := range simplePatterns {
+			if sp == inner {
+				rank = i
+			}
+		}
+		for i, sp := range simplePatterns {
+			if i < rank && len(sp) <= len(inner) {
+				out = append(out, s[:va]+q+sp+q+s[vb:])
 			}
 		}
 		if l := lowerNoEsc(inner); l != inner {
@@ -400,6 +409,8 @@ func shrinkCandidates(s string) []string {
 	}
 	return out
 }
+
+var simplePatterns = []string{"/", "a", "b", "c", "x", "1", "_", "A", "aa", "ab"}
 
 // lowerNoEsc lower-cases letters that are not part of a backslash pair.
 func lowerNoEsc(v string) string {
